@@ -31,6 +31,11 @@ pub struct Case {
 
 pub struct C13;
 
+/// every length 0..=n (a bug that depends on one particular length, not on a boundary, needs density)
+fn dense(n: usize) -> Vec<usize> {
+    (0..=n).collect()
+}
+
 fn lens(thorough: bool, around: &[usize]) -> Vec<usize> {
     let mut v: Vec<usize> = (0..=40).collect();
     v.extend_from_slice(&LEN_BLOCK);
@@ -153,6 +158,16 @@ impl Part for C13 {
                 }
             }
             Entry::SetupInfo => {
+                if matches!(c.suite.kem, Kem::X25519) || (t && c.suite.kem == Kem::P256) {
+                    for l in dense(if t { 1100 } else { 600 }) {
+                        let info = bytes(Fill::Mix, l, 2, cfg.seed);
+                        let mut rng = ScriptRng::new(&k.ikm_e);
+                        let o = ops.setup_sender(&m, &k.pk_r, &info, &mut rng);
+                        if let Some(e) = no_panic(&mut out, &format!("setup_sender(info {} bytes)", l), &o) {
+                            out.fail(format!("setup_sender(info {} bytes) failed with {:?}", l, e));
+                        }
+                    }
+                }
                 for l in lens(t, &[]) {
                     let f = fills[l % fills.len()];
                     let info = bytes(f, l, 2, cfg.seed);
@@ -217,6 +232,21 @@ impl Part for C13 {
                 }
             }
             Entry::SetupPsk => {
+                if matches!(c.suite.kem, Kem::X25519) {
+                    for l in dense(if t { 700 } else { 330 }) {
+                        if l == 0 {
+                            continue;
+                        }
+                        for (pl, il) in [(l, 3usize), (3usize, l)] {
+                            let m2 = ModeSpec { psk: bytes(Fill::Mix, pl, 3, cfg.seed), psk_id: bytes(Fill::Mix, il, 4, cfg.seed), ..m.clone() };
+                            let mut rng = ScriptRng::new(&k.ikm_e);
+                            let o = ops.setup_sender(&m2, &k.pk_r, &info, &mut rng);
+                            if let Some(e) = no_panic(&mut out, &format!("setup_sender(psk {} psk_id {})", pl, il), &o) {
+                                out.fail(format!("setup_sender(psk {} psk_id {}) failed with {:?}", pl, il, e));
+                            }
+                        }
+                    }
+                }
                 for l in lens(t, &[c.suite.kdf.nh(), 266]) {
                     if l == 0 {
                         continue;
@@ -257,6 +287,22 @@ impl Part for C13 {
                         return out;
                     }
                 };
+                if c.entry != Entry::SingleShotOpen {
+                    for l in dense(if t { 1100 } else { 400 }) {
+                        let ct = bytes(Fill::Mix, l, 5, cfg.seed);
+                        let aad = bytes(Fill::Mix, (l * 7 + 3) % 1100, 6, cfg.seed);
+                        let what = format!("{:?}(ciphertext {} bytes, aad {} bytes)", c.entry, l, aad.len());
+                        let e = if c.entry == Entry::Open {
+                            no_panic(&mut out, &what, &r.open(&ct, &aad))
+                        } else {
+                            let mut b = ct.clone();
+                            no_panic(&mut out, &what, &r.open_ip(&mut b, &aad, &bytes(Fill::Mix, nt, 7, cfg.seed)))
+                        };
+                        if e.is_some() && e != Some(HpkeError::OpenError) {
+                            out.fail(format!("{}: failed with {:?}, want OpenError", what, e));
+                        }
+                    }
+                }
                 let ls = lens(t && c.entry != Entry::SingleShotOpen, &[nt]);
                 for &l in &ls {
                     for &f in &fills {
@@ -298,6 +344,14 @@ impl Part for C13 {
                     }
                 };
                 let nh = c.suite.kdf.nh();
+                // dense: every exporter-context length up to 1100 (2100 in thorough), one small output each
+                for l in dense(if t { 2100 } else { 1100 }) {
+                    let ectx = bytes(Fill::Mix, l, 8, cfg.seed);
+                    let e = no_panic(&mut out, &format!("export(context {} bytes, L=32)", l), &s.export(&ectx, 32));
+                    if e.is_some() {
+                        out.fail(format!("export(context {} bytes, L=32) failed: {:?}", l, e));
+                    }
+                }
                 let ls = lens(t, &[255 * nh]);
                 for &l in &ls {
                     let f = fills[l % fills.len()];
@@ -318,6 +372,9 @@ impl Part for C13 {
                 }
             }
             Entry::DeriveKeypair => {
+                for l in dense(if t { 600 } else { 300 }) {
+                    no_panic(&mut out, &format!("{} derive_keypair(ikm {} bytes)", c.suite.kem.name(), l), &kops.derive_keypair(&bytes(Fill::Mix, l, 9, cfg.seed)));
+                }
                 for l in lens(t, &[c.suite.kem.nsk()]) {
                     for &f in &fills {
                         no_panic(&mut out, &format!("{} derive_keypair(ikm {} bytes, {:?})", c.suite.kem.name(), l, f), &kops.derive_keypair(&bytes(f, l, 9, cfg.seed)));
